@@ -769,8 +769,10 @@ class Blockwise(Layer):
             # one or more args of blockwise() are sequences of literals;
             # e.g. k = (list, [0, 1, 2])
             # See https://github.com/dask/dask/issues/8978
+            # A literal (idxv is None) is never a reference to a collection, even
+            # if it is a string that happens to equal the name of one.
 
-            if ishashable(k) and k in names:
+            if idxv is not None and ishashable(k) and k in names:
                 is_leaf = False
                 k = clone_key(k, seed)  # type: ignore[type-var]
             elif isinstance(k, TaskRef) and k.key in names:
